@@ -85,6 +85,9 @@ pub struct World {
     pub events: u64,
     /// C08 control: die right before (false) / after (true) the handler invocation with this number
     pub boundary_crash: Option<(u64, bool)>,
+    /// (handler-invocation number, new stored tip hash) for every change of the stored tip (when `record_tip_moves`)
+    pub record_tip_moves: bool,
+    pub tip_moves: Vec<(u64, ckb_types::packed::Byte32)>,
     /// per peer: layout of the last honest SendLastStateProof + number of requested difficulties
     pub last_layouts: HashMap<PeerIndex, (server::ProofLayout, usize)>,
     /// every message delivered to the client (when `record_deliveries` is on), for history oracles
@@ -119,6 +122,8 @@ impl World {
             steps: 0,
             events: 0,
             boundary_crash: None,
+            record_tip_moves: false,
+            tip_moves: vec![],
             last_layouts: HashMap::new(),
             record_deliveries: false,
             delivered: vec![],
@@ -282,6 +287,8 @@ impl World {
         if self.record_deliveries {
             self.delivered.push((proto.protocol_id(), peer, data.clone()));
         }
+        self.shared.clock.store(self.events, std::sync::atomic::Ordering::SeqCst);
+        let tip_before = if self.record_tip_moves { Some(self.storage().get_tip_header().calc_header_hash()) } else { None };
         let shared = Arc::clone(&self.shared);
         let c = self.cm();
         let nc = ctx(&shared, proto.clone());
@@ -295,6 +302,12 @@ impl World {
         if self.boundary_crash == Some((self.events, true)) {
             panic!("LCV-CRASH:boundary-after-handler");
         }
+        if let Some(b) = tip_before {
+            let a = self.storage().get_tip_header().calc_header_hash();
+            if a != b {
+                self.tip_moves.push((self.events, a));
+            }
+        }
         self.process_disconnect_requests();
     }
 
@@ -303,6 +316,7 @@ impl World {
         if self.boundary_crash == Some((self.events, false)) {
             panic!("LCV-CRASH:boundary-before-handler");
         }
+        self.shared.clock.store(self.events, std::sync::atomic::Ordering::SeqCst);
         let shared = Arc::clone(&self.shared);
         let c = self.cm();
         let nc = ctx(&shared, proto.clone());
